@@ -88,6 +88,8 @@ pub fn run<const V: u32>() {
         }
         "cycles" => crate::modes::cycles::<V>(&mut d, &params, arg_u64("cycles", 40), cfg.heap_mb),
         "oom" => crate::modes_oom::oom_mode::<V>(&mut d, &params, cfg.heap_mb, is_nogc),
+        // C06: soft / weak / phantom references and finalizers
+        "refs" => crate::modes_refs::refs_mode::<V>(&mut d, &params, programs, ops, cfg.heap_mb),
         "immixlines" => crate::modes_immix::immixlines::<V>(&mut d, &params, cfg.heap_mb),
         // family "space": C24 side-metadata layout of the configuration, C31 address lookups
         "layout" => crate::modes_space::layout::<V>(&plan),
@@ -216,6 +218,30 @@ pub fn random_program<const V: u32>(d: &mut Driver<V>, p: &Params, pi: u64, nops
         } else if c < 88 + gc_weight {
             let ex = d.rng.chance(1, 2);
             d.gc(m, ex);
+            if !flag("nochurn") && d.rng.chance(1, 2) {
+                // Churn and re-walk: refill the memory the collection reclaimed with fresh objects of
+                // every semantics in use (they die at once: each overwrites the same scratch slot),
+                // then report the reachable graph again. A reference that still points at a stale
+                // copy in released memory reads foreign data now.
+                let n = d.rng.range(20, 120);
+                let scratch = p.nslots; // a root slot the program itself never uses
+                for _ in 0..n {
+                    safepoint();
+                    let sem = *d.rng.pick(&p.sems);
+                    let mut size = pick_size(&mut d.rng, p.allow_big);
+                    if matches!(sem, 1 | 3 | 4 | 5 | 6) {
+                        size = size.min(2048);
+                    }
+                    if sem == 2 {
+                        size = size.max(8192);
+                    }
+                    let maxnf = ((size - HDR_BYTES) / 8).min(3);
+                    d.new_object(m, scratch, sem, size, maxnf, 8, 0, KIND_PLAIN);
+                }
+                d.set_root(m, scratch, 0);
+                safepoint();
+                shadowvm::walker::report::<V>("PostChurn", GC_EPOCH.load(Ordering::Relaxed));
+            }
             if probes {
                 crate::modes::probes::<V>(d, p);
             }
